@@ -8,5 +8,5 @@ theorem stale_top_margin : breaksInv (play before 4 5 [csi1 114 [3, 5], .resize 
 theorem stale_saved_cursor : breaksInv (play before 4 5 [csi1 72 [5, 4], .esc [55], .resize 2 2, .esc [56]]) 2 2 = true := by decide +kernel
 theorem then_print_panics : panics (play before 4 5 [csi1 72 [5, 4], .esc [55], .resize 2 2, .esc [56], pr [97]]) = true := by decide +kernel
 theorem now_fine : fine (play Fixes.current 4 5 [csi1 114 [3, 5], .resize 4 2]) 2 4 = true := by decide +kernel
-theorem now_fine' : fine (play Fixes.current 4 5 [csi1 72 [5, 4], .esc [55], .resize 2 2, .esc [56], pr [97]]) 2 2 = true := by decide +kernel
+theorem now_fine2 : fine (play Fixes.current 4 5 [csi1 72 [5, 4], .esc [55], .resize 2 2, .esc [56], pr [97]]) 2 2 = true := by decide +kernel
 end VaxisModel.Witness.F19
